@@ -277,7 +277,8 @@ let storage_handlers = [
   ("bg_create", (fun _ -> do_op "bg_create" OBgCreate));
   ("bg_restore", (fun _ -> do_op "bg_restore" OBgRestore));
   ("force_update", (function [p] ->
-      let n = (match p with "always" -> 0 | "never" -> 1 | "some" -> 2 | "nonempty" -> 3 | _ -> failwith "pred") in
+      let n = (match p with "always" -> 0 | "never" -> 1 | "some" -> 2 | "nonempty" -> 3
+                      | "panics" -> 1   (* a predicate that fails: the request is dropped, as for a predicate that says no *) | _ -> failwith "pred") in
       do_op "force_update" (OForceUpdate (n_of_int n)) | _ -> failwith "force_update args"));
   ("free_excess", (fun _ -> do_op "free_excess" OFreeExcess));
   ("quiesce", (fun _ -> do_op "quiesce" OQuiesce));
